@@ -11,6 +11,6 @@ uint8_t _Z9matchglobRKNSt7__cxx1112basic_stringIcSt11char_traitsIcESaIcEEES6_b(u
   for (uint64_t i = 0; i < 8; i++) if (i < nl && np[i] != g_target[i]) return 0;
   return 1;
 }
-uint8_t _ZN9PathMatch5matchERKNSt7__cxx1112basic_stringIcSt11char_traitsIcESaIcEEES7_S7_NS_8FilemodeENS_6SyntaxE(uint8_t* pattern, uint8_t* path, uint8_t* base, uint32_t mode, uint32_t syntax) {
+uint8_t _ZN9PathMatch5matchERKNSt7__cxx1112basic_stringIcSt11char_traitsIcESaIcEEES7_S7_NS_8FilemodeENS_6SyntaxE(uint8_t* pattern, uint8_t* path, uint8_t* base, uint8_t mode, uint8_t syntax) {
   g_filecalls++; return g_filematch;
 }
